@@ -176,6 +176,8 @@ def main():
         changed, failures = extract.regenerate(args.repo)
         if changed:
             notes.append("Generated.lean rewritten from %s" % args.repo)
+        for g, msg in sorted(extract.PROBED.items()):
+            notes.append("extractor: group '%s' not found in the syntax tree (%s); values read back by running the code (probe.py)" % (g, msg))
         for g, msg in sorted(failures.items()):
             # a constant group the extractor no longer understands is a broken tie of the properties that read it
             if pid in extract.GROUPS[g][1]:
